@@ -100,6 +100,7 @@ CONSTRUCTORS = [
     "to_specific_type", "from_specific_type", "JSONRPCRequest()", "JSONRPCResponse()", "JSONRPCError()", "JSONRPCNotification()",
     "BatchProcessor.create_batch_rejection_error", "BatchProcessor.item_error",
     "handle_roots_list_request", "ElicitationClient.handle_elicitation_request", "ElicitationClient.error", "stdio-writer",
+    "deferred-progress-requests",
 ]
 
 
@@ -178,7 +179,16 @@ def check(case: Dict[str, Any]) -> Outcome:
             bp = BatchProcessor("2025-03-26")
 
             def bad(item):
-                raise RuntimeError("boom " + emsg)
+                kind = case.get("exc", "runtime")
+                if kind == "runtime":
+                    raise RuntimeError("boom " + emsg)
+                if kind == "library-validation":
+                    from chuk_mcp.protocol.types.errors import ValidationError as LibValidationError
+
+                    raise LibValidationError("bad params " + emsg)
+                e = RuntimeError("driver error " + emsg)
+                e.code = {"code-str": "rate_limit_exceeded", "code-none": None, "code-int": 429, "code-float": 4.5, "code-bool": True}[kind]  # type: ignore
+                raise e
 
             r = bp.process_message_data([{"jsonrpc": "2.0", "id": i, "method": method, "params": payload}], bad)
             w = json.loads(json.dumps(r[0])); exp = {"kind": "error", "id": i}
@@ -206,6 +216,23 @@ def check(case: Dict[str, Any]) -> Outcome:
 
             w = json.loads(json.dumps(run_virtual(go)))
             exp = {"kind": "error", "id": i} if em.endswith("error") else {"kind": "result", "id": i, "result": {"data": payload, "cancelled": False}}
+        elif em == "deferred-progress-requests":
+            # build several requests first, serialise afterwards: each must keep its own token and params
+            toks = case.get("tokens", ["t1", 2])
+            built = []
+            for k_, tok in enumerate(toks):
+                p_k = None if case.get("no_params") else dict(payload, k=k_)
+                built.append((J.create_request(method, p_k, id=f"{i}-{k_}" if isinstance(i, str) else i + k_, progress_token=tok), p_k, tok, k_))
+            for msg_k, p_k, tok, k_ in built:
+                w_k = _wire(msg_k)
+                want = dict(p_k or {})
+                meta = dict(want.get("_meta", {})) if isinstance(want.get("_meta"), dict) else {}
+                meta["progressToken"] = tok
+                want["_meta"] = meta
+                roundtrip_check(out, em, w_k, {"kind": "request", "method": method, "params": want})
+                if out.failures:
+                    break
+            return out
         elif em == "stdio-writer":
             return check_stdio_writer(case)
         elif em in ("http-post", "sse-post"):
@@ -432,6 +459,12 @@ def cases(draw, emitters: List[str]):
         case["version"] = draw(st.sampled_from(["2025-06-18", "2026-01-01", "é"]))
     if em.startswith(("helper:", "notif:")):
         case["text"] = draw(json_text)
+    if em == "BatchProcessor.item_error":
+        case["exc"] = draw(st.sampled_from(["runtime", "library-validation", "code-str", "code-none", "code-int", "code-float", "code-bool"]))
+    if em == "deferred-progress-requests":
+        case["tokens"] = draw(st.lists(st.one_of(st.integers(0, 9), st.sampled_from(["a", "b", "tok-\u00e9"])), min_size=2, max_size=4, unique_by=lambda t: (type(t).__name__, t)))
+        case["no_params"] = draw(st.booleans())
+        case["id"] = draw(st.one_of(st.integers(0, 1000), st.sampled_from(["r", "7"])))
     return case
 
 
